@@ -135,7 +135,7 @@ ElemUse::getNextChildElemToExecute(
 {
     const ElemTemplateElement* nextElement = 0;
     
-    if (m_attributeSetsNamesCount > 0)
+    if (applyAttributeSets(executionContext) == true)
     {
         nextElement = getNextAttributeSet(executionContext);
     }
@@ -169,7 +169,7 @@ ElemUse::getFirstChildElemToExecute(StylesheetExecutionContext&     executionCon
     if (getXSLToken() != StylesheetConstructionContext::ELEMNAME_COPY ||
         executionContext.getCurrentNode()->getNodeType() == XalanNode::ELEMENT_NODE)
     {
-        if (m_attributeSetsNamesCount > 0)
+        if (applyAttributeSets(executionContext) == true)
         {
             // reset
             executionContext.getUseAttributeSetIndexes().attributeSetNameIndex = 0;
@@ -189,6 +189,16 @@ ElemUse::getFirstChildElemToExecute(StylesheetExecutionContext&     executionCon
     }
 
     return nextElement;
+}
+
+
+
+bool
+ElemUse::applyAttributeSets(StylesheetExecutionContext&     executionContext) const
+{
+    return m_attributeSetsNamesCount > 0 &&
+           (getXSLToken() != StylesheetConstructionContext::ELEMNAME_ELEMENT ||
+            executionContext.getSkipElementAttributes() == false);
 }
 
 
